@@ -192,7 +192,9 @@ def corr_malformed(ctx, S):
         # 2^61 - 1 hash alike on 64-bit CPython): a curve comparison by cached hash instead of by value confuses exactly these
         M61 = (1 << 61) - 1
         p2, a2, b2 = rng.choice([(p, a + 1, b), (p, a, b + 1), (7 if abs(p) != 7 else 11, a, b), (p, a + p, b),
-                                 (p, a - M61, b), (p, a, b + M61), (p, -2 if a == -1 else a + M61, -2 if b == -1 else b)])
+                                 (p, a + (M61 if a >= 0 else -M61), b), (p, a, b + (M61 if b >= 0 else -M61)),
+                                 (p, -2 if a == -1 else a + (M61 if a >= 0 else -M61), -2 if b == -1 else b)])
+        assert hash((p2, a2, b2)) != hash((p, a, b)) or (p2, a2, b2) != (p, a, b)
         c2 = K.curve_of(p2, a2, b2)
         on2 = plane_points(c2, p2)
 
